@@ -66,7 +66,7 @@ fn parse_nodes(s: &str) -> Option<Vec<NodeHandle>> {
     }
     s.split(';').map(|x| {
         let (i, a) = x.split_once('@')?;
-        Some(NodeHandle::new(id_of(&unhex(i)?)?, parse_addr(a)?))
+        Some(NodeHandle::new(id_of(&unhex(i)?)?, parse_addr_plain(a)?))
     }).collect()
 }
 
@@ -88,7 +88,7 @@ pub fn text_to_msg(words: &[&str]) -> Option<Message> {
         })),
         (&"r", _) => {
             let vals = kv(words, "values")?;
-            let values: Vec<SocketAddr> = if vals == "-" { vec![] } else { vals.split(';').map(parse_addr).collect::<Option<_>>()? };
+            let values: Vec<SocketAddr> = if vals == "-" { vec![] } else { vals.split(';').map(parse_addr_plain).collect::<Option<_>>()? };
             MessageBody::Response(Response {
                 id: id_of(&unhex(kv(words, "id")?)?)?, values,
                 nodes_v4: parse_nodes(kv(words, "nodes")?)?, nodes_v6: parse_nodes(kv(words, "nodes6")?)?,
